@@ -113,6 +113,7 @@ func (r *Rig) Decode(s *State) *View {
 		Reqs: map[string]*st.CompactRequest{}, ActiveByID: map[string]bool{}, ActiveByIDKeys: map[string]string{},
 		Resps: map[string]*st.Response{}, Bal: map[string]*big.Int{}, Supply: new(big.Int)}
 
+	var rawByID [][]byte
 	for _, kv := range s.Stores[stService] {
 		if len(kv.K) == 0 {
 			continue
@@ -146,13 +147,9 @@ func (r *Rig) Decode(s *State) *View {
 			v.Ctxs[id] = &c
 			v.CtxIDs = append(v.CtxIDs, id)
 		case bytes.Equal(p, st.ExpiredRequestBatchKey):
-			var b gogotypes.BytesValue
-			mustUnmarshal(kv.V, &b)
-			v.ExpQ = append(v.ExpQ, QueueRec{kv.K, hexs(b.Value)})
+			v.ExpQ = append(v.ExpQ, QueueRec{kv.K, idFromValue(kv.V, st.ContextIDLen)})
 		case bytes.Equal(p, st.NewRequestBatchKey):
-			var b gogotypes.BytesValue
-			mustUnmarshal(kv.V, &b)
-			v.NewQ = append(v.NewQ, QueueRec{kv.K, hexs(b.Value)})
+			v.NewQ = append(v.NewQ, QueueRec{kv.K, idFromValue(kv.V, st.ContextIDLen)})
 		case bytes.Equal(p, st.ExpiredRequestBatchHeightKey):
 			var h gogotypes.Int64Value
 			mustUnmarshal(kv.V, &h)
@@ -168,14 +165,15 @@ func (r *Rig) Decode(s *State) *View {
 			v.Reqs[id] = &c
 			v.ReqIDs = append(v.ReqIDs, id)
 		case bytes.Equal(p, st.ActiveRequestKey):
-			var b gogotypes.BytesValue
-			mustUnmarshal(kv.V, &b)
-			v.Active = append(v.Active, ActiveRec{kv.K, hexs(b.Value)})
+			v.Active = append(v.Active, ActiveRec{kv.K, idFromValue(kv.V, st.RequestIDLen)})
 		case bytes.Equal(p, st.ActiveRequestByIDKey):
-			var b gogotypes.BytesValue
-			mustUnmarshal(kv.V, &b)
-			v.ActiveByID[hexs(b.Value)] = true
-			v.ActiveByIDKeys[hexs(b.Value)] = hexs(kv.K[1:])
+			id := idFromValue(kv.V, st.RequestIDLen)
+			if id == "" {
+				rawByID = append(rawByID, kv.K)
+				continue
+			}
+			v.ActiveByID[id] = true
+			v.ActiveByIDKeys[id] = hexs(kv.K[1:])
 		case bytes.Equal(p, st.ResponseKey):
 			var c st.Response
 			mustUnmarshal(kv.V, &c)
@@ -192,6 +190,8 @@ func (r *Rig) Decode(s *State) *View {
 			v.Unknown = append(v.Unknown, RawRec{kv.K, kv.V})
 		}
 	}
+
+	v.recoverIdentities(rawByID)
 
 	// bank: balances (prefix 0x02 | addr | denom -> Coin) and supply, read with the bank keeper on a read context
 	ctx := r.ReadCtx(s)
@@ -285,4 +285,87 @@ func balanceUniverse() []sdk.AccAddress {
 		out = append(out, sdk.AccAddress(a))
 	}
 	return out
+}
+
+// idFromValue returns the identifier an index record carries in its value (a BytesValue of the expected length),
+// or "" if the value does not carry one (a layout where the identifier lives only in the key).
+func idFromValue(raw []byte, wantLen int) string {
+	var b gogotypes.BytesValue
+	if err := b.Unmarshal(raw); err == nil && len(b.Value) == wantLen {
+		return hexs(b.Value)
+	}
+	return ""
+}
+
+// recoverIdentities fills in the subject of index records whose value does not name it, by constructing the key the
+// module builds for every known context / request (and every height near the current one) and matching it.
+func (v *View) recoverIdentities(rawByID [][]byte) {
+	heights := func() []int64 {
+		var hs []int64
+		for d := int64(-2); d <= 12; d++ {
+			hs = append(hs, v.H+d)
+		}
+		for _, h := range v.ExpH {
+			hs = append(hs, h)
+		}
+		for _, h := range v.NewH {
+			hs = append(hs, h)
+		}
+		return hs
+	}
+	fixQ := func(q []QueueRec, build func([]byte, int64) []byte) {
+		for i := range q {
+			if q[i].Ctx != "" {
+				continue
+			}
+			ids := append([]string{}, v.CtxIDs...)
+			for id := range v.ExpH {
+				ids = append(ids, id)
+			}
+			for id := range v.NewH {
+				ids = append(ids, id)
+			}
+			for _, id := range ids {
+				for _, h := range heights() {
+					if bytes.Equal(build(mustHex(id), h), q[i].Key) {
+						q[i].Ctx = id
+					}
+				}
+			}
+			if q[i].Ctx == "" {
+				q[i].Ctx = "unidentified:" + hexs(q[i].Key)
+			}
+		}
+	}
+	fixQ(v.ExpQ, func(id []byte, h int64) []byte { return st.GetExpiredRequestBatchKey(id, h) })
+	fixQ(v.NewQ, func(id []byte, h int64) []byte { return st.GetNewRequestBatchKey(id, h) })
+	for i := range v.Active {
+		if v.Active[i].Req != "" {
+			continue
+		}
+		for _, rid := range v.ReqIDs {
+			r := v.Reqs[rid]
+			if c := v.Ctxs[hexs(r.RequestContextId)]; c != nil {
+				if bytes.Equal(st.GetActiveRequestKey(c.ServiceName, r.Provider, r.ExpirationHeight, mustHex(rid)), v.Active[i].Key) {
+					v.Active[i].Req = rid
+				}
+			}
+		}
+		if v.Active[i].Req == "" {
+			v.Active[i].Req = "unidentified:" + hexs(v.Active[i].Key)
+		}
+	}
+	for _, k := range rawByID {
+		id := ""
+		for _, rid := range v.ReqIDs {
+			if bytes.Equal(st.GetActiveRequestKeyByID(mustHex(rid)), k) {
+				id = rid
+			}
+		}
+		if id == "" {
+			id = "unidentified:" + hexs(k)
+		}
+		v.ActiveByID[id] = true
+		v.ActiveByIDKeys[id] = hexs(k[1:])
+	}
 }
